@@ -101,6 +101,11 @@ def main(argv=None):
         for feat in configs:
             path, sha, cached, secs = extract.facts_path(args.repo, feat)
             facts = Facts(path, repo=args.repo)
+            if os.path.abspath(args.repo) != "/repo":
+                try:
+                    os.unlink(path)  # scratch copies are analysed once
+                except OSError:
+                    pass
             st = facts.stats()
             st.update({"features": feat or "default", "facts_sha": sha, "cached": cached, "extract_s": round(secs, 2)})
             analysed.append(st)
